@@ -1241,6 +1241,7 @@ LIBRARY = {
     ('math', 'floor'): ('builtin', 'math.floor'), ('math', 'log2'): ('builtin', 'math.log2'),
     ('struct', 'Struct'): ('class', 'Struct'), ('struct', 'error'): ('exc', 'struct.error'),
     ('collections', 'defaultdict'): ('class', 'defaultdict'), ('collections', 'namedtuple'): ('builtin', 'namedtuple'),
+    ('array', 'array'): ('class', 'arrayQ'),
     ('asyncio', 'Event'): ('class', 'Event'), ('aiorpcx', 'Event'): ('class', 'Event'),
     ('asyncio', 'Lock'): ('class', 'Lock'), ('asyncio', 'sleep'): ('builtin', 'sleep'),
     ('aiorpcx', 'sleep'): ('builtin', 'sleep'), ('asyncio', 'CancelledError'): ('exc', 'CancelledError'),
@@ -1253,7 +1254,7 @@ LIBRARY = {
     ('bisect', 'bisect_left'): ('builtin', 'bisect_left'), ('bisect', 'bisect_right'): ('builtin', 'bisect_right'),
     ('functools', 'partial'): ('builtin', 'partial'),
     ('time', 'time'): ('builtin', 'time.time'), ('time', 'monotonic'): ('builtin', 'time.time'),
-    ('array', 'array'): ('class', 'array'),
+
     ('random', 'shuffle'): ('builtin', 'random.shuffle'),
     ('socket', 'gaierror'): ('exc', 'socket.gaierror'),
     ('ipaddress', 'ip_address'): ('builtin', 'ip_address'),
@@ -1429,6 +1430,8 @@ def get_attr(ip, obj, attr, node, fr):
         if ip.mode == 'code' and not hasattr(pytype, attr):
             raise PyRaise(VExc('AttributeError'), node)
     if isinstance(obj, VList):
+        if obj.ek == KInt and attr == 'frombytes':
+            return VFunc('bound', 'list.frombytes', self_val=obj)
         if obj.ek == KInt and attr in ('itemsize', 'tobytes'):
             # T-ARRAY: the integer lists of the index objects (DB.tx_counts) are array('Q'): 8-byte items
             ip.assumed.add("T-ARRAY: integer-list fields are array('Q') objects: itemsize 8, tobytes() is 8 bytes per item (little endian)")
@@ -2143,6 +2146,13 @@ def call_class(ip, c, args, kwargs, node, fr):
         if isinstance(v, VDict):
             return VDict(v.map, v.dom, v.kk, v.vk)
         raise EngineError('dict() from this argument')
+    if n == 'arrayQ':
+        # array.array('Q'): an (initially empty) list of unsigned 64-bit integers (T-ARRAY)
+        tc = resolve(ip, args[0]) if args else None
+        if not (isinstance(tc, VConst) and tc.py == 'Q') or len(args) != 1:
+            raise EngineError("array.array with a type code other than 'Q' or with an initialiser")
+        ip.assumed.add("T-ARRAY: array('Q') holds unsigned 64-bit items; frombytes() appends one item per 8 bytes, little endian")
+        return KList(KInt).wrap_empty(ip) if hasattr(KList(KInt), 'wrap_empty') else _empty_int_list(ip)
     if n == 'defaultdict':
         factory = args[0] if args else None
         d = VDict(None, None, None, None)
@@ -2328,6 +2338,41 @@ def method(tname, *names):
             METHODS[(tname, n)] = _kwargs_guard(fn, f'{tname}.{n}')
         return fn
     return deco
+
+
+def _empty_int_list(ip):
+    r = KList(KInt).fresh(ip, 'arrq')
+    ip.assume(r.n == 0)
+    r.n = z3.IntVal(0)
+    return r
+
+
+@method('list', 'frombytes')
+def _l_frombytes(ip, recv, args, kwargs, node, fr):
+    '''array('Q').frombytes(b): ValueError unless len(b) is a multiple of 8; appends the little-endian 64-bit items'''
+    if recv.ek != KInt:
+        raise EngineError('frombytes on a list that is not an integer array')
+    b = resolve(ip, args[0])
+    if not is_bytes(b):
+        raise PyRaise(VExc('TypeError'), node)
+    t = KBytes.unwrap(b)
+    n = seq_len(t)
+    ip.raise_if(n % 8 != 0, 'ValueError', node)
+    ip.touch(recv)
+    old_arr, old_n = recv.arr, recv.n
+    k = z3.Int(ip.fresh_name('k'))
+    ip.assume(k * 8 == n)
+    enc, dec = struct_funcs('le', False)
+    j = z3.Int(ip.fresh_name('j'))
+    new_arr = z3.Const(ip.fresh_name('arrq'), z3.ArraySort(z3.IntSort(), z3.IntSort()))
+    ip.assume(z3.ForAll([j], z3.Implies(z3.And(0 <= j, j < old_n), z3.Select(new_arr, j) == z3.Select(old_arr, j)),
+                        patterns=[z3.Select(new_arr, j)]))
+    ip.assume(z3.ForAll([j], z3.Implies(z3.And(0 <= j, j < k), z3.And(z3.Select(new_arr, old_n + j) == dec(z3.SubSeq(t, 8 * j, 8)),
+                                                                       z3.Select(new_arr, old_n + j) >= 0)),
+                        patterns=[z3.Select(new_arr, old_n + j)]))
+    recv.arr, recv.n = new_arr, z3.simplify(old_n + k)
+    recv._writeback()
+    return VConst(None)
 
 
 @method('list', 'tobytes')
@@ -2699,7 +2744,15 @@ def _b_join(ip, recv, args, kwargs, node, fr):
             return VConst(b'')
         if v.ek != KBytes:
             raise EngineError('join of non-bytes list')
-        return VBytes(ip.V.bjoin(v.arr, v.n))
+        r = ip.V.bjoin(v.arr, v.n)
+        # length of a join of equally long pieces (the only length fact about joins the code under contract relies on:
+        # 5-byte history entries padded to 8 bytes)
+        j = z3.Int(ip.fresh_name('j'))
+        for L in (8, 5, 32, 80):
+            ip.assume(z3.Implies(z3.ForAll([j], z3.Implies(z3.And(0 <= j, j < v.n), seq_len(z3.Select(v.arr, j)) == L)),
+                                 seq_len(r) == L * v.n))
+        ip.assume(seq_len(r) >= 0)
+        return VBytes(r)
     raise EngineError(f'bytes.join of {v!r}')
 
 
